@@ -3,6 +3,7 @@ package main
 // Assumed contracts of external functions (the trusted table, DESIGN Appendix B).
 
 import (
+	"fmt"
 	"go/types"
 
 	"golang.org/x/tools/go/ssa"
@@ -125,6 +126,20 @@ func init() {
 			sig := in.(ssa.CallInstruction).Common().Signature()
 			return Val{Tup: fr.freshResults(sig, "uuid")}
 		},
+		"container/heap.Push": heapOp("push"),
+		"container/heap.Pop":  heapOp("pop"),
+		"container/heap.Fix":  heapOp("fix"),
+		"container/heap.Init": heapOp("init"),
+		// fingerprint of a label set: an uninterpreted function of the label-set object (label sets are not mutated
+		// after ingestion; no collision-freedom is derived from it). Same symbol as the contract-level `uf fpL`.
+		"(github.com/prometheus/common/model.LabelSet).Fingerprint": func(fr *Frame, st *State, a []Val, _ ssa.Instruction) Val {
+			u := fr.u
+			f := u.enc.declFun("uf$fpL", []string{"Int"}, "Int")
+			t := app(f, a[0].T)
+			u.assume(app(">=", t, "0"))
+			u.note("LabelSet.Fingerprint: uninterpreted function of the label-set object (label sets immutable once stored)")
+			return intV(t)
+		},
 		"errors.New":  freshErr,
 		"fmt.Errorf":  freshErr,
 		"errors.Is": func(fr *Frame, st *State, a []Val, _ ssa.Instruction) Val {
@@ -209,4 +224,134 @@ func protoClone(fr *Frame, st *State, a []Val, in ssa.Instruction) Val {
 	}
 	sig := ci.Common().Signature()
 	return fr.freshResults(sig, "clone")[0]
+}
+
+// heapOp: assumed contracts of container/heap over a slice of pointers to items that carry an `index` and a
+// `priority` field (the shape of limit.sortedItems, whose Less/Swap/Push/Pop are verified separately against the
+// heap.Interface protocol). Membership is expressed through the index field: member(r) == 0 <= idx[r] < len && row[off+idx[r]] == r.
+//   requires  every slot holds a non-nil item whose index field is its position
+//   ensures   Push: members' = members + x, len' = len+1      Pop: result = old root, members' = members - root, root.index = -1
+//             Fix/Init: members' = members
+//             all: slots consistent again, root has minimal priority, index fields of non-members untouched,
+//                  value/priority fields untouched
+// "root has minimal priority" is the consequence of heap order that the callers need (the induction from heap order
+// to root-minimality is not mechanised; listed as assumption).
+func heapOp(kind string) trustedFn {
+	return func(fr *Frame, st *State, a []Val, in ssa.Instruction) Val {
+		u := fr.u
+		h := a[0]
+		if h.BoxLoc == nil {
+			u.unsup("container/heap.%s on an interface value that is not a statically known pointer to a slice", kind)
+		}
+		loc := h.BoxLoc
+		slT, ok := loc.Ty.Underlying().(*types.Slice)
+		if !ok {
+			u.unsup("container/heap.%s: not a slice", kind)
+		}
+		pt, ok := slT.Elem().Underlying().(*types.Pointer)
+		if !ok {
+			u.unsup("container/heap.%s: elements are not pointers", kind)
+		}
+		itemT := pt.Elem()
+		is, ok := itemT.Underlying().(*types.Struct)
+		if !ok {
+			u.unsup("container/heap.%s: elements are not struct pointers", kind)
+		}
+		fi, fp := -1, -1
+		for i := 0; i < is.NumFields(); i++ {
+			switch is.Field(i).Name() {
+			case "index":
+				fi = i
+			case "priority":
+				fp = i
+			}
+		}
+		if fi < 0 || fp < 0 {
+			u.unsup("container/heap.%s: item type lacks index/priority fields", kind)
+		}
+		u.note("container/heap.%s: assumed contract (multiset change, slots/index fields consistent, root minimal); heap order => root minimal not mechanised", kind)
+		idxH, _ := u.fieldHeap(itemT, fi)
+		prioH, _ := u.fieldHeap(itemT, fp)
+		arrH := u.arrHeap(slT.Elem())
+		S := u.readLoc(st, loc)
+		A := u.heapCur(st, arrH)
+		R := sel(A, app("sl_base", S))
+		I := u.heapCur(st, idxH)
+		P := u.heapCur(st, prioH)
+		off, ln := app("sl_off", S), app("sl_len", S)
+		pos := u.cx.fset.Position(in.Pos())
+		_ = pos
+		// precondition: slots consistent
+		wf := fmt.Sprintf("(forall ((i!h Int)) (=> (and (<= 0 i!h) (< i!h %s)) (and (not (= (select %s (ix %s i!h)) 0)) (= (select %s (select %s (ix %s i!h))) i!h))))", ln, R, off, I, R, off)
+		fr.topFrame().u.oblige(st, "pre", fmt.Sprintf("%s/pre:heap.%s:slots", fr.topFrame().fnLabel(), kind), wf, in.Pos(), nil, "container/heap."+kind+": every slot holds a non-nil item whose index field is its position")
+		member := func(r, I, R, off, ln string) string {
+			return fmt.Sprintf("(and (not (= %s 0)) (<= 0 (select %s %s)) (< (select %s %s) %s) (= (select %s (ix %s (select %s %s))) %s))", r, I, r, I, r, ln, R, off, I, r, r)
+		}
+		var x, root string
+		switch kind {
+		case "push":
+			// x is a boxed *item
+			g := u.enc.declFun("unbox$Int", []string{"Int"}, "Int")
+			x = app(g, a[1].T)
+		case "pop":
+			fr.topFrame().u.oblige(st, "pre", fmt.Sprintf("%s/pre:heap.pop:nonempty", fr.topFrame().fnLabel()), app(">", ln, "0"), in.Pos(), nil, "container/heap.Pop on a non-empty heap")
+			root = u.enc.freshConst("heaproot", "Int")
+			u.assume(eq(root, sel(R, app("ix", off, "0"))))
+		case "fix":
+			fr.topFrame().u.oblige(st, "pre", fmt.Sprintf("%s/pre:heap.fix:index", fr.topFrame().fnLabel()), and(app("<=", "0", a[1].T), app("<", a[1].T, ln)), in.Pos(), nil, "container/heap.Fix index in range")
+		}
+		// new slice, row, index heap
+		S2 := u.enc.freshConst("heapslice", "Slice")
+		u.typeFacts(Val{T: S2, S: "Slice", Ty: loc.Ty})
+		oldAlloc := u.heapCur(st, "$alloc")
+		newBase := app("sl_base", S2)
+		// the backing array is the old one or a fresh one
+		na := u.heapHavoc(st, "$alloc")
+		u.assume(app(">=", na, oldAlloc))
+		u.assume(or(eq(newBase, app("sl_base", S)), and(app(">", newBase, oldAlloc), app("<=", newBase, na))))
+		if kind != "push" {
+			u.assume(eq(newBase, app("sl_base", S)))
+		}
+		R2 := u.enc.freshConst("heaprow", arrayRange(u.heapSort[arrH]))
+		u.heapStoreAt(st, arrH, newBase, R2)
+		I2 := u.heapHavoc(st, idxH)
+		u.flushBounds(st)
+		off2, ln2 := app("sl_off", S2), app("sl_len", S2)
+		switch kind {
+		case "push":
+			u.assume(eq(ln2, app("+", ln, "1")))
+		case "pop":
+			u.assume(eq(ln2, app("-", ln, "1")))
+		default:
+			u.assume(eq(ln2, ln))
+		}
+		// slots consistent
+		u.assume(fmt.Sprintf("(forall ((i!h Int)) (! (=> (and (<= 0 i!h) (< i!h %s)) (and (not (= (select %s (ix %s i!h)) 0)) (<= (select %s (ix %s i!h)) %s) (= (select %s (select %s (ix %s i!h))) i!h))) :pattern ((select %s (ix %s i!h)))))", ln2, R2, off2, R2, off2, na, I2, R2, off2, R2, off2))
+		// membership
+		var memNew string
+		switch kind {
+		case "push":
+			memNew = or(member("r!h", I, R, off, ln), and(eq("r!h", x), not(eq("r!h", "0"))))
+		case "pop":
+			memNew = and(member("r!h", I, R, off, ln), not(eq("r!h", root)))
+		default:
+			memNew = member("r!h", I, R, off, ln)
+		}
+		u.assume(fmt.Sprintf("(forall ((r!h Int)) (! (= %s %s) :pattern ((select %s r!h))))", member("r!h", I2, R2, off2, ln2), memNew, I2))
+		// index fields of non-members untouched (the popped root gets -1)
+		keep := fmt.Sprintf("(=> (not %s) (= (select %s r!h) (select %s r!h)))", member("r!h", I2, R2, off2, ln2), I2, I)
+		if kind == "pop" {
+			keep = fmt.Sprintf("(=> (and (not %s) (not (= r!h %s))) (= (select %s r!h) (select %s r!h)))", member("r!h", I2, R2, off2, ln2), root, I2, I)
+			u.assume(eq(sel(I2, root), "(- 1)"))
+		}
+		u.assume(fmt.Sprintf("(forall ((r!h Int)) (! %s :pattern ((select %s r!h))))", keep, I2))
+		// root minimal
+		u.assume(fmt.Sprintf("(forall ((i!h Int)) (! (=> (and (<= 0 i!h) (< i!h %s)) (<= (select %s (select %s (ix %s 0))) (select %s (select %s (ix %s i!h))))) :pattern ((select %s (ix %s i!h)))))", ln2, P, R2, off2, P, R2, off2, R2, off2))
+		u.writeLoc(st, loc, S2)
+		if kind == "pop" {
+			// result: the old root, boxed
+			return fr.box(st, Val{T: root, S: "Int"}, slT.Elem())
+		}
+		return unitV()
+	}
 }
